@@ -449,7 +449,7 @@ def bdd_windows(chk, env):
                 if b is None:
                     raise Undecided("bdd_complexity not found for %s" % K.adt)
                 it = env.interp(max_paths=20000)
-                it.max_steps = 100000000
+                it.max_steps = 5000000
                 it.prune = True
                 it.split_all = True
                 it.cmp_split = True
